@@ -615,6 +615,7 @@ func extractC03() *lean {
 	c03ConfigFacts(l)
 	c03ExportFacts(l)
 	c03PemFacts(l)
+	c03MemoryFacts(l)
 	return l
 }
 
